@@ -20,6 +20,12 @@ func runC08(c *Ctx) {
 	w := c.W
 	checkMutateKeysNotAliased(c)
 	checkVersionTimesFresh(c)
+	checkSigningKeyDiscipline(c)
+	// the identity versions keys are judged with are the merged ones: every remote identity is merged and reported
+	ruleDocsMerge(c)
+	effM := newEffects(w)
+	checkMergeFns(c, effM)
+	checkIdentityMerge(c, effM)
 	// the logical times keys are dated with: clocks persisted, merged identities taken over by the cache
 	checkMemClock(c)
 	checkCacheMergeFold(c, "R2.6")
@@ -732,4 +738,239 @@ func checkVersionTimesFresh(c *Ctx) {
 	c.Check(formA || formB, "R8.7", "Identity.Mutate:new-version-dated-after-every-commit", w.FnPos(mut),
 		map[bool]string{true: "newVersion dates the version after the clocks' current times", false: "Mutate advances every clock before dating the version"}[formA],
 		"a version added by Mutate is dated with the clocks' current times ("+why+"): a commit made just before (carrying that very time, signed with the previous key) is verified against the new keys and the repository cannot read back what it wrote — 'signature made by unknown entity'")
+}
+
+// loadsGlobal: v is a load of the package-level variable `name`.
+func loadsGlobal(v ssa.Value, name string) bool {
+	v = stripConv(v)
+	if u, ok := v.(*ssa.UnOp); ok && u.Op == token.MUL {
+		if g, isG := u.X.(*ssa.Global); isG && g.Name() == name {
+			return true
+		}
+	}
+	return false
+}
+
+// sentinelEdge: taking successor `succ` of block b means "val is the sentinel `global`"
+// (val == global / global == val true edge, != false edge, errors.Is(val, global) true edge).
+func sentinelEdge(b *ssa.BasicBlock, succ int, isVal func(ssa.Value) bool, global string) bool {
+	if len(b.Instrs) == 0 {
+		return false
+	}
+	iff, isIf := b.Instrs[len(b.Instrs)-1].(*ssa.If)
+	if !isIf {
+		return false
+	}
+	switch cnd := iff.Cond.(type) {
+	case *ssa.BinOp:
+		if cnd.Op != token.EQL && cnd.Op != token.NEQ {
+			return false
+		}
+		want := 0
+		if cnd.Op == token.NEQ {
+			want = 1
+		}
+		if succ != want {
+			return false
+		}
+		return (isVal(cnd.X) && loadsGlobal(cnd.Y, global)) || (isVal(cnd.Y) && loadsGlobal(cnd.X, global))
+	case *ssa.Call:
+		if n, _ := callName(cnd.Common()); n == "errors.Is" && succ == 0 && len(cnd.Call.Args) == 2 {
+			return isVal(cnd.Call.Args[0]) && loadsGlobal(cnd.Call.Args[1], global)
+		}
+	}
+	return false
+}
+
+// nilEdge: taking successor `succ` of block b means "val is nil".
+func nilEdge(b *ssa.BasicBlock, succ int, isVal func(ssa.Value) bool) bool {
+	if len(b.Instrs) == 0 {
+		return false
+	}
+	iff, isIf := b.Instrs[len(b.Instrs)-1].(*ssa.If)
+	if !isIf {
+		return false
+	}
+	bo, isBo := iff.Cond.(*ssa.BinOp)
+	if !isBo || (bo.Op != token.EQL && bo.Op != token.NEQ) {
+		return false
+	}
+	want := 0
+	if bo.Op == token.NEQ {
+		want = 1
+	}
+	if succ != want {
+		return false
+	}
+	return (isVal(bo.X) && isNilConst(bo.Y)) || (isVal(bo.Y) && isNilConst(bo.X))
+}
+
+// R8.8: which key signs. Identity.SigningKey decides whether a commit is signed at all: nil means
+// "this author has no usable key", and Write then stores an unsigned commit. Only the absence of the
+// private part from the keyring may mean that; a keyring failure or a damaged entry must abort the write.
+func checkSigningKeyDiscipline(c *Ctx) {
+	w := c.W
+	c.Doc("R8.8", "Identity.SigningKey skips a key only when loading its private part failed with errNoPrivateKey, returns the key only when loading succeeded, and fails on every other error (an unsigned commit is never the answer to a keyring fault); Key.loadPrivate answers errNoPrivateKey only for the keyring's own not-found error")
+	fn := w.Method("entities/identity", "Identity", "SigningKey")
+	lp := w.Method("entities/identity", "Key", "loadPrivate")
+	if fn == nil || lp == nil {
+		c.Undecided("R8.8", "anchor:Identity.SigningKey/Key.loadPrivate", "entities/identity", "not found")
+		return
+	}
+	c.seeFn(funcName(fn))
+	c.seeFn(funcName(lp))
+	pos := w.FnPos(fn)
+	isLoader := func(n string) bool {
+		return strings.HasSuffix(n, ".ensurePrivateKey") || strings.HasSuffix(n, ".loadPrivate")
+	}
+	var load *ssa.Call
+	nLoad := 0
+	for _, cl := range Calls(fn) {
+		cv, isCall := cl.Instr.(*ssa.Call)
+		if !isCall {
+			continue
+		}
+		if callReaches(cv, isLoader, 2) {
+			load = cv
+			nLoad++
+		}
+	}
+	if load == nil || nLoad != 1 {
+		c.Check(false, "R8.8", "Identity.SigningKey:loads-the-private-part", pos, fmt.Sprintf("%d calls loading a key's private part found (one expected)", nLoad), "")
+		return
+	}
+	c.Sites++
+	errIdx := -1
+	if sig := load.Call.Signature(); sig != nil {
+		for i := 0; i < sig.Results().Len(); i++ {
+			if isErrorType(sig.Results().At(i).Type()) {
+				errIdx = i
+			}
+		}
+	}
+	errVals := map[ssa.Value]bool{}
+	for _, v := range resultValues(load, errIdx) {
+		errVals[v] = true
+	}
+	isErr := func(v ssa.Value) bool { return errVals[stripConv(v)] }
+	skipEdge := func(b *ssa.BasicBlock, s int) bool { return sentinelEdge(b, s, isErr, "errNoPrivateKey") }
+	okEdge := func(b *ssa.BasicBlock, s int) bool { return nilEdge(b, s, isErr) }
+	hdr := enclosingLoopHeader(load.Block())
+	c.Check(hdr != nil, "R8.8", "Identity.SigningKey:tries-every-key", pos, "the private part is loaded inside a loop over the keys", "the private part is not loaded inside a loop over the identity's keys")
+	// the key whose private part was loaded
+	var key ssa.Value
+	if len(load.Call.Args) > 0 {
+		key = load.Call.Args[0]
+	}
+	returnsKey := func(r *ssa.Return) bool {
+		if len(r.Results) == 0 {
+			return false
+		}
+		v := ReturnResult(r, 0)
+		return key != nil && (v == key || sameExpr(v, key, 0))
+	}
+	returnsNoKey := func(r *ssa.Return) bool {
+		return len(r.Results) > 0 && isNilConst(ReturnResult(r, 0))
+	}
+	// (a) other errors abort: without the skip edge and without the ok edge, neither the next key nor a success return is reachable
+	badA := ""
+	for _, r := range Returns(fn) {
+		if returnKind(r) != RetError && reachWithoutEdge(load.Block(), r.Block(), func(b *ssa.BasicBlock, s int) bool {
+			return skipEdge(b, s) || okEdge(b, s) || (hdr != nil && b.Succs[s] == hdr)
+		}) && r.Block() != load.Block() {
+			badA = "a return without error at " + w.InstrPos(r)
+		}
+	}
+	if hdr != nil && badA == "" {
+		// the back edge
+		for _, p := range hdr.Preds {
+			if !inLoop(p, hdr) {
+				continue
+			}
+			if p == load.Block() || reachWithoutEdge(load.Block(), p, func(b *ssa.BasicBlock, s int) bool {
+				return skipEdge(b, s) || okEdge(b, s) || b.Succs[s] == hdr
+			}) {
+				// p reached without skip/ok: is the edge p→hdr itself a skip edge?
+				for i, s := range p.Succs {
+					if s == hdr && !skipEdge(p, i) && !okEdge(p, i) {
+						badA = "the next key is tried"
+					}
+				}
+			}
+		}
+	}
+	c.Check(badA == "", "R8.8", "Identity.SigningKey:other-errors-abort", pos,
+		"an error other than errNoPrivateKey from loading the private part leads only to failing returns",
+		"after an error other than errNoPrivateKey from loading the private part, "+badA+": a keyring fault makes the author look keyless and the commit is stored unsigned")
+	// (b) the key is returned only after a successful load, and a successful load returns that key
+	badB := ""
+	for _, r := range Returns(fn) {
+		if returnKind(r) == RetError {
+			continue
+		}
+		c.Sites++
+		viaOther := reachWithoutEdge(load.Block(), r.Block(), func(b *ssa.BasicBlock, s int) bool { return okEdge(b, s) || (hdr != nil && b.Succs[s] == hdr) })
+		inBody := hdr != nil && inLoop(r.Block(), hdr)
+		switch {
+		case returnsKey(r):
+			if viaOther {
+				badB = "the key is returned at " + w.InstrPos(r) + " without its private part having been loaded successfully"
+			}
+		case returnsNoKey(r):
+			if inBody || (hdr == nil) {
+				badB = "'no signing key' is answered at " + w.InstrPos(r) + " before every key was tried"
+			}
+		default:
+			badB = "the return at " + w.InstrPos(r) + " answers something else than the key just loaded or nil"
+		}
+	}
+	c.Check(badB == "", "R8.8", "Identity.SigningKey:key-iff-loaded", pos,
+		"the key returned is the one whose private part was just loaded successfully; nil only after the loop", badB)
+	// (c) loadPrivate: errNoPrivateKey only for the keyring's not-found error
+	var get *ssa.Call
+	for _, cl := range Calls(lp) {
+		if strings.HasSuffix(cl.Name, "Keyring.Get") || strings.HasSuffix(cl.Name, ".Get") {
+			if cv, isCall := cl.Instr.(*ssa.Call); isCall && cv.Type().String() != "" {
+				if _, isTuple := cv.Type().(*types.Tuple); isTuple {
+					get = cv
+				}
+			}
+		}
+	}
+	if get == nil {
+		c.Check(false, "R8.8", "Key.loadPrivate:no-private-key-iff-not-found", w.FnPos(lp), "", "no keyring look-up found")
+		return
+	}
+	getErr := map[ssa.Value]bool{}
+	for _, v := range resultValues(get, 1) {
+		getErr[v] = true
+	}
+	isGetErr := func(v ssa.Value) bool { return getErr[stripConv(v)] }
+	badC, nSent := "", 0
+	for _, r := range Returns(lp) {
+		if len(r.Results) == 0 {
+			continue
+		}
+		c.Sites++
+		sent := false
+		for _, o := range origins(ReturnResult(r, 0)) {
+			if o.Kind == "global" && o.Name == "errNoPrivateKey" {
+				sent = true
+			}
+		}
+		if !sent {
+			continue
+		}
+		nSent++
+		if reachWithoutEdge(lp.Blocks[0], r.Block(), func(b *ssa.BasicBlock, s int) bool {
+			return sentinelEdge(b, s, isGetErr, "ErrKeyringKeyNotFound")
+		}) {
+			badC = "errNoPrivateKey is answered at " + w.InstrPos(r) + " for something else than the keyring's not-found error"
+		}
+	}
+	if nSent == 0 {
+		badC = "loadPrivate never answers errNoPrivateKey"
+	}
+	c.Check(badC == "", "R8.8", "Key.loadPrivate:no-private-key-iff-not-found", w.FnPos(lp),
+		"errNoPrivateKey is answered exactly on the true outcome of err == repository.ErrKeyringKeyNotFound", badC)
 }
